@@ -10,6 +10,8 @@ import (
 
 	"github.com/form3tech-oss/f1/v2/internal/trigger/api"
 	"github.com/form3tech-oss/f1/v2/internal/trigger/constant"
+	"github.com/form3tech-oss/f1/v2/internal/trigger/ramp"
+	"github.com/form3tech-oss/f1/v2/internal/trigger/staged"
 	"github.com/form3tech-oss/f1/v2/internal/verifh/kit"
 )
 
@@ -93,6 +95,58 @@ func TestC13(t *testing.T) {
 	}
 }
 
+// The jitter as the triggers apply it: constant, ramp and staged built by their Calculate...Rate
+// functions with distribution none, evaluated tick by tick next to a zero-jitter twin that gives
+// the underlying values; the jittered outputs are exactly the model's for those values and the
+// mirrored random draws (one draw per tick: the percentage is applied once).
+func TestC13Triggers(t *testing.T) {
+	o := kit.Get()
+	defer o.Close()
+	r := kit.NewRand(kit.Seed() + 133)
+	jitters := []float64{0.5, 2, 20, 50, 60, 99, 33.3, 75.25}
+	for i := 0; i < kit.N(90, 1200); i++ {
+		j := jitters[r.Intn(len(jitters))]
+		mode := []string{"constant", "ramp", "staged"}[i%3]
+		a, b := r.Range(1, 3000), r.Range(1, 3000)
+		start := time.Unix(1_700_000_000, 0)
+		build := func(jj float64) (*api.Rates, error) {
+			switch mode {
+			case "ramp":
+				if a == b {
+					b++
+				}
+				return ramp.CalculateRampRate(kit.I(a)+"/1s", kit.I(b)+"/1s", "none", 100*time.Second, jj)
+			case "staged":
+				return staged.CalculateStagedRate(jj, time.Second, "0s:"+kit.I(a)+",60s:"+kit.I(b)+",40s:"+kit.I(a), "none", &start)
+			}
+			return constant.CalculateConstantRate(jj, kit.I(a)+"/1s", "none")
+		}
+		jr, err1 := build(j)
+		pr, err2 := build(0)
+		if err1 != nil || err2 != nil {
+			o.Fail("c13-trigger-build", mode+" trigger could not be built")
+			continue
+		}
+		ln := int(r.Range(5, 110))
+		seed := int64(r.U64() >> 1)
+		rand.Seed(seed)
+		mirror := rand.New(rand.NewSource(seed))
+		var rates, outs []int64
+		var cosb []uint64
+		at := start
+		crashed, _ := kit.Guard(func() {
+			for k := 0; k < ln; k++ {
+				rates = append(rates, int64(pr.Rate(at)))
+				outs = append(outs, int64(jr.Rate(at)))
+				cosb = append(cosb, bits(math.Cos(mirror.Float64()*2*math.Pi)))
+				at = at.Add(time.Second)
+			}
+		})
+		o.Count("trigger", mode)
+		o.Case("jitter", []string{kit.I(bits(j)), kit.Ints(rates), kit.Ints(cosb)}, kit.Res(crashed, nil, kit.Ints(outs)), "trigger", "nt")
+	}
+}
+
 // Two jittered functions of different percentages alive at once and evaluated in turn (stages of
 // a config file, a chart next to a run): each applies its own percentage and carries its own
 // remainder. The global random source is mirrored in call order.
@@ -155,12 +209,28 @@ func TestC13Composed(t *testing.T) {
 		jit := kit.Pick(r, int64(20), 50, 60, 75, 90, 99, r.Range(1, 99))
 		dist := kit.Pick(r, "random", "random", "regular")
 		spec := kit.I(rate) + "/" + unit
-		jr, err1 := constant.CalculateConstantRate(float64(jit), spec, dist)
-		pr, err2 := constant.CalculateConstantRate(0, spec, dist)
+		// every rate mode that takes a jitter, on a flat profile (so that the same fixed bound applies):
+		// constant, a ramp that stays at R for the steps taken, a single staged stage at R
+		mode := []string{"constant", "ramp", "staged"}[i%3]
+		build := func(j float64) (*api.Rates, error) {
+			switch mode {
+			case "ramp":
+				// R to R+1 over a thousand hours: R throughout the steps taken here
+				return ramp.CalculateRampRate(spec, kit.I(rate+1)+"/"+unit, dist, 1000*time.Hour, j)
+			case "staged":
+				u, _ := time.ParseDuration(unit)
+				start := time.Unix(1_700_000_000, 0)
+				return staged.CalculateStagedRate(j, u, "0s:"+kit.I(rate)+",1000h:"+kit.I(rate), dist, &start)
+			}
+			return constant.CalculateConstantRate(j, spec, dist)
+		}
+		jr, err1 := build(float64(jit))
+		pr, err2 := build(0)
 		if err1 != nil || err2 != nil || jr.IterationDuration != pr.IterationDuration {
-			o.Fail("c13-composed-build", "constant trigger "+spec+" with distribution "+dist+" could not be built twice alike")
+			o.Fail("c13-composed-build", mode+" trigger "+spec+" with distribution "+dist+" could not be built twice alike")
 			continue
 		}
+		o.Count("mode", mode)
 		steps := int(kit.Pick(r, int64(2000), 5000, 20000))
 		at := time.Unix(1_700_000_000, 0)
 		var sj, sp, maxd int64
